@@ -563,6 +563,34 @@ func runC02(r *fw.Run) {
 	}
 	runtime.GOMAXPROCS(prevProcs)
 	g.Stop()
+	// pauses of 400 ms inside and between frames while the service runs with a 150 ms idle timeout: the pauses must not
+	// change the meaning of the stream (an open connection keeps the service from timing out)
+	for k := 0; k < r.Pick(1, 4); k++ {
+		gt, err := newRig(r, RigOpt{Transport: "unix", Ifaces: c01Ifaces, UseListen: k%2 == 0, Timeout: 150 * time.Millisecond})
+		if err != nil {
+			r.Inconclusive("rig with idle timeout: %v", err)
+			break
+		}
+		cc := &c01Case{Transport: "unix", UseListen: k%2 == 0, Ifaces: c01Ifaces, AllOpenFirst: true}
+		for j := 0; j < 3; j++ {
+			tag++
+			cs := genConnScript(rng, jg, fmt.Sprintf("p%d", tag), 3, false)
+			cs.Seg = 5
+			cc.Conns = append(cc.Conns, cs)
+		}
+		r.Journal(0, map[string]interface{}{"what": "long pauses, service with idle timeout"})
+		// no barrier probe afterwards: the service is allowed to time out as soon as the round is over
+		c01RoundOpt(r, gt, "C02", cc, true, false)
+		r.Done(0)
+		r.Count("long_pause_rounds", 1)
+		r.Case(fw.Hash("pauses", fmt.Sprint(k)), true)
+		select {
+		case <-gt.done:
+		case <-time.After(20 * time.Second):
+			gt.Stop()
+		}
+		gt.cancel()
+	}
 	// Part C: reception by the client under exact partitions (scripted raw server, model of C11)
 	srv, err := newRawServer(r.WorkDir)
 	if err != nil {
